@@ -138,8 +138,11 @@ def exec_state(df, st, emb, part):
             elif ok:
                 if not all(close(p[d], r["v"][d]) for d in range(nd)):
                     part.violation(key("i2p-centre"), "index2point is not pmin+(i+1/2)*cell", wit(index=i, got=p))
-                back = mesh.point2index(p)
-                if tuple(back) != tuple(i):
+                try:
+                    back = mesh.point2index(p)
+                except Exception as ex:  # the centre of a cell is a point of the region
+                    back = repr(ex)
+                if not isinstance(back, tuple) or tuple(back) != tuple(i):
                     part.violation(key("C01_Inverse"), "point2index(index2point(i)) != i", wit(index=i, got=back))
             part.count()
         part.nontriv(str(m), mvtag, kind, emb.name)
@@ -256,7 +259,10 @@ def gen_trace(df, rnd, tid, embs):
                 ok = False
             if ok:
                 pr = [lat.proj_coord(emb, pt[d], cq, coords) for d in range(nd)]
-                back = [int(v) for v in mesh.point2index(pt)]
+                try:
+                    back = [int(v) for v in mesh.point2index(pt)]
+                except Exception:  # the centre of a cell is a point of the region: logged as "no index", judged by C01Trace
+                    back = [-1] * nd
                 ev.append({"k": "i2p", "i": i, "ok": True, "r": [a for a, _ in pr], "exact": all(b for _, b in pr), "back": back})
             else:
                 ev.append({"k": "i2p", "i": i, "ok": False, "r": [], "exact": True, "back": []})
